@@ -71,7 +71,7 @@ def gen_case(rng, hostile_p=0.08, limits=None, max_nodes=40, n_frames=None, n_wa
     if limits is None:
         limits = dict(max_vars=rng.choice([0, 1, 2, 3, 5, 10, 30, 1000]), max_coll=rng.choice([0, 1, 2, 3, 10]),
                       max_depth=rng.choice([0, 1, 2, 3, 4, 5, 8]), max_str=rng.choice([0, 1, 5, 10, 64, 1024]))
-    return dict(frames=frames, watches=watches, limits=limits, frame_type=rng.choice(["single_frame"] * 3 + ["all_frame", "no_frame"]),
+    return dict(frames=frames, watches=watches, limits=limits, frame_type=rng.choice(["single_frame"] * 3 + ["all_frame", "all_frame", "no_frame", "no_frame", "odd_frame", "", None]),
                 keep=g.pool)
 
 
@@ -98,6 +98,8 @@ def run_impl(case, n_actions=1, event="line", arg=None, extra_cfg=None, per_acti
                 "fire_count": "-1", "fire_period": "0", "log_msg": None,
                 "MAX_VARIABLES": lim_k["max_vars"], "MAX_COLLECTION_SIZE": lim_k["max_coll"],
                 "MAX_VAR_DEPTH": lim_k["max_depth"], "MAX_STRING_LENGTH": lim_k["max_str"], "MAX_TP_PROCESS_TIME": 10 ** 9}
+        if conf["frame_type"] is None:
+            del conf["frame_type"]            # the argument is absent
         if event != "line":
             conf["stage"] = "line_capture"
         conf.update(extra_cfg or {})
@@ -168,6 +170,8 @@ def run_pair(case_a, case_b, hook):
                 "fire_count": "-1", "fire_period": "0", "log_msg": None,
                 "MAX_VARIABLES": lim["max_vars"], "MAX_COLLECTION_SIZE": lim["max_coll"],
                 "MAX_VAR_DEPTH": lim["max_depth"], "MAX_STRING_LENGTH": lim["max_str"], "MAX_TP_PROCESS_TIME": 10 ** 9}
+        if conf["frame_type"] is None:
+            del conf["frame_type"]
         top = case["frames"][0]
         top["line"] = line
         trigs.append(Trigger(LineLocation(os.path.basename(top["file"]), line, Location.Position.START),
